@@ -535,16 +535,47 @@ class _KwSpec(Spec):
 
 def _pk_post(a, r):
     got = A(a.post.self, "S")
-    kw = a.kwargs.d
+    native = not isinstance(a.kwargs, CDict)
+    kw = a.kwargs if native else a.kwargs.d
+    sdict = a.__dict__["_S_dict"] if native else _PK_DICT.d
+    sglobal = a.__dict__["_S_global"] if native else _PK_GLOBAL
     out = {}
     for e in ("A", "B"):
         if "S" in kw:
             out["explicit.%s" % e] = eq(D(got, e), kw["S"])
-        elif e in _PK_DICT.d:
-            out["dictionary.%s" % e] = eq(D(got, e), _PK_DICT.d[e])
+        elif e in sdict:
+            out["dictionary.%s" % e] = eq(D(got, e), sdict[e])
         else:
-            out["global.%s" % e] = eq(D(got, e), _PK_GLOBAL)
+            out["global.%s" % e] = eq(D(got, e), sglobal)
     return out
+
+
+def _kwd(a):
+    return a.kwargs.d if isinstance(a.kwargs, CDict) else a.kwargs
+
+
+def _pk_native(args):
+    """the nested function cannot be called from outside: the harness runs gamma_method with the class-level dictionary / default
+    set as in the contract and looks at the parameter dictionary _parse_kwarg filled in"""
+    from pyvc.native import repo_module
+    pe = repo_module("pyerrors.obs")
+    saved = (pe.Obs.S_dict, pe.Obs.S_global)
+    pe.Obs.S_dict, pe.Obs.S_global = dict(args["_S_dict"]), args["_S_global"]
+    try:
+        args["self"].gamma_method(**args["kwargs"])
+    finally:
+        pe.Obs.S_dict, pe.Obs.S_global = saved
+    return None
+
+
+def _pk_gen(rng, case):
+    import numpy as np
+    from pyvc.native import repo_module
+    pe = repo_module("pyerrors.obs")
+    r = np.random.default_rng(rng.randint(0, 10 ** 6))
+    o = pe.Obs([r.normal(size=30)], ["A|r1"]) + pe.Obs([r.normal(size=25)], ["B|r1"])
+    kw = {"absent": {}, "float": {"S": rng.choice([0.0, 1.5, 3.0, -1.0])}, "int": {"S": rng.choice([0, 1, 3, -2])}, "str": {"S": "2.0"}}[case["kwargs"]]
+    return {"kwarg_name": "S", "self": o, "kwargs": kw, "_S_dict": {"A": rng.choice([0.0, 0.0, 1.0, 2.5])}, "_S_global": rng.choice([2.0, 1.0, 3.0])}
 
 
 _PK_DICT = CDict({"A": SReal(z3.Real("S_dict.A"))})
@@ -557,10 +588,10 @@ contract(
     class_attrs={"Obs.S_dict": _PK_DICT, "Obs.S_global": _PK_GLOBAL},
     inline=[REL + "::Obs.e_names"],
     writable_attrs={"self": ["S"]},
-    raises=[("ValueError", lambda a: "S" in a.kwargs.d and not isinstance(a.kwargs.d["S"], str) and a.kwargs.d["S"] < 0),
-            ("TypeError", lambda a: "S" in a.kwargs.d and isinstance(a.kwargs.d["S"], str))],
+    raises=[("ValueError", lambda a: "S" in _kwd(a) and not isinstance(_kwd(a)["S"], str) and _kwd(a)["S"] < 0),
+            ("TypeError", lambda a: "S" in _kwd(a) and isinstance(_kwd(a)["S"], str))],
     ensures=_pk_post,
-    native_ok=False, crosscheck=False, refute=False,
+    native_call=_pk_native, gen=_pk_gen, crosscheck=False, refute=False,
     slice_note="nested function of gamma_method; its free variables self and kwargs are parameters; the class-level dictionary and "
                "global default are symbolic (an entry for ensemble A, none for ensemble B)",
     note="the same code serves S, tau_exp and N_sigma (the name is a parameter); verified for S",
